@@ -92,10 +92,13 @@ type gates struct {
 	gate   []chan struct{}
 	in     atomic.Int64
 	passed atomic.Int64 // callbacks that were actually held in this scenario
+	// one-shot panics (round 6, panic.go): slot 2*t+stage as above; panics = callbacks that actually panicked
+	panicArmed []atomic.Bool
+	panics     atomic.Int64
 }
 
 func newGates(n int) *gates {
-	return &gates{armed: make([]atomic.Bool, 2*n), held: make([]atomic.Bool, 2*n), gate: make([]chan struct{}, 2*n)}
+	return &gates{armed: make([]atomic.Bool, 2*n), held: make([]atomic.Bool, 2*n), gate: make([]chan struct{}, 2*n), panicArmed: make([]atomic.Bool, 2*n)}
 }
 
 // pass is called from inside the callback of thread t at the given stage: when a hold is armed it blocks until release(t)
@@ -169,8 +172,10 @@ func (w *stkHold) exec(t int, o op) {
 	case "PopOrWait":
 		v, ok := w.s.PopOrWait(func() bool {
 			w.g.pass(t, 0)
+			w.g.panicIf(t, 0, nil)
 			c := w.flag.Load()
 			w.g.pass(t, 1)
+			w.g.panicIf(t, 1, nil)
 			w.lastCond[t].Store(1 + int32(b2i(c)))
 			return c
 		})
@@ -268,13 +273,15 @@ func (w *cntHold) judgeHold(obs []int64, inflight []*op, completed []op, complet
 
 func newHoldWorld(sc *scenario) holdWorld {
 	n := len(sc.Scripts)
-	if sc.Kind == "cnth" {
+	if sc.Kind == "cnth" || sc.Kind == "cntp" {
 		w := &cntHold{cntWorld: cntWorld{c: syncutils.NewCounter()}, g: newGates(n), at: make([]int, n)}
 		w.c.Subscribe(func(_, nv int) {
 			w.lmu.Lock()
 			w.log = append(w.log, nv)
 			w.lmu.Unlock()
+			w.g.panicIf(0, 0, w.nobodyParked)
 			w.g.pass(0, 0)
+			w.g.panicIf(0, 1, w.nobodyParked)
 		})
 		return w
 	}
@@ -306,7 +313,7 @@ func runHold(sc *scenario) (seen [][]int64, fail string) {
 				if _, ok := <-rel[t]; !ok {
 					return
 				}
-				w.exec(t, o)
+				execRecovering(w, t, o)
 				done[t].Add(1)
 				returned.Add(1)
 			}
@@ -354,7 +361,7 @@ func runHold(sc *scenario) (seen [][]int64, fail string) {
 				time.Sleep(50 * time.Microsecond)
 			}
 			if spins%500 == 0 && time.Now().After(deadline) {
-				return fmt.Sprintf("event %d: a released operation neither returned, nor parked on a condition variable, nor is it blocked on the mutex held around a callback within %v (released=%d returned=%d parked=%d inside a held callback=%d)", step, stallTimeout, total, r1, w1-n1, g1)
+				return fmt.Sprintf("event %d: a released operation neither returned, nor parked on a condition variable, nor is it blocked on the mutex held around a callback within %v (released=%d returned=%d parked=%d inside a held callback=%d blocked in sync.(RW)Mutex.(R)Lock=%d)", step, stallTimeout, total, r1, w1-n1, g1, lockBlocked(ids))
 			}
 		}
 	}
@@ -376,9 +383,15 @@ func runHold(sc *scenario) (seen [][]int64, fail string) {
 		case e < 3*n:
 			ev = "release"
 			g.release(e - 2*n)
-		default:
+		case e < 4*n:
 			ev = "arm-after-read"
 			g.arm(e-3*n, 1)
+		case e < 5*n:
+			ev = "arm-panic"
+			g.panicArmed[2*(e-4*n)].Store(true)
+		default:
+			ev = "arm-panic-after-read"
+			g.panicArmed[2*(e-5*n)+1].Store(true)
 		}
 		if s := quiesce(step); s != "" {
 			return s
@@ -386,9 +399,20 @@ func runHold(sc *scenario) (seen [][]int64, fail string) {
 		held := g.heldAny() >= 0
 		everHeld = everHeld || held
 		var obs []int64
-		if held {
+		switch {
+		case held:
 			obs = w.observeHeld()
-		} else {
+		case g.panics.Load() > 0:
+			// a callback panicked earlier and its caller recovered: the observer takes the object's mutex, which is free at a
+			// quiescent point with nobody inside a callback - under the watchdog (a leaked mutex must become a reported outcome)
+			ch := make(chan []int64, 1)
+			go func() { ch <- w.observe() }()
+			select {
+			case obs = <-ch:
+			case <-time.After(stallTimeout):
+				return fmt.Sprintf("event %d (%s %d): the object's mutex is still locked at a quiescent point with nobody inside a callback, after a callback panicked and its caller recovered: an observer that takes the mutex did not get it within %v (every wait / update blocks although no goroutine is inside the critical section)", step, ev, e, stallTimeout)
+			}
+		default:
 			obs = w.observe()
 		}
 		state := obs
@@ -406,6 +430,9 @@ func runHold(sc *scenario) (seen [][]int64, fail string) {
 				completedBy = append(completedBy, u)
 			}
 			prevDone[u] = d
+		}
+		if sc.Kind == "cntp" || sc.Kind == "stkp" {
+			obs = append(obs, g.panics.Load())
 		}
 		if sw, ok := w.(*stkHold); ok {
 			sw.mu.Lock()
@@ -453,6 +480,7 @@ func runHold(sc *scenario) (seen [][]int64, fail string) {
 		abandoned += released[u] - int(done[u].Load())
 	}
 	sc.Held = int(g.passed.Load())
+	sc.Panics = int(g.panics.Load())
 	return seen, fail
 }
 
@@ -464,7 +492,7 @@ func emitHold(cf *vx.CasesFile, st *vx.Stats, sc *scenario) {
 		return
 	}
 	seen, fail := runHold(sc)
-	if strings.Contains(fail, "neither returned, nor parked") {
+	if strings.Contains(fail, "neither returned, nor parked") || strings.Contains(fail, "mutex is still locked") {
 		stalls++
 	}
 	parts := []string{caseKey(sc.Kind)}
@@ -479,7 +507,10 @@ func emitHold(cf *vx.CasesFile, st *vx.Stats, sc *scenario) {
 	if sc.Held > 0 {
 		st.Count("cases-with-a-caller-held-inside-its-callback:" + sc.Kind)
 	}
-	st.Case(strings.Join(parts, "|"), sc.Held > 0)
+	if sc.Panics > 0 {
+		st.Count("cases-with-a-callback-that-panicked(recovered-by-the-caller):" + sc.Kind)
+	}
+	st.Case(strings.Join(parts, "|"), sc.Held > 0 || sc.Panics > 0)
 	if sc.Kind == "stkh" {
 		cf.Add(sc.coq(seen))
 		st.CaseIndex = append(st.CaseIndex, sc)
@@ -616,6 +647,7 @@ func genHold(r *vx.Rng, cf *vx.CasesFile, st *vx.Stats, nRandom int) {
 		emitHold(cf, st, &scenario{Kind: "stkh", Tag: "random", Scripts: scripts, Events: ev})
 	}
 	genHoldCounter(r, st, nRandom/2)
+	genHoldPanic(r, st, nRandom/2)
 }
 
 // Counter: the subscriber callback runs inside Set / Update, after the value was written, with valueMutex held. While
